@@ -86,22 +86,35 @@ func evalVar(c vCase) *vMismatch {
 	probe := ""
 	if s("k") == "var" {
 		inc := s("loc") == "inc"
-		target := "      - echo \"GOT={{.N}}\"\n"
+		target := "      - echo \"GOT={{.N}}|{{.G2}}\"\n"
 		taskVars := block("    ", "vars", varDef(s("task"), "task", "N"))
 		callVars := ""
 		if s("call") == "lit" {
 			callVars = "        vars: {N: call}\n"
 		}
-		root := "version: '3'\nsilent: true\n" + block("", "vars", varDef(s("global"), "global", "N"))
+		root := "version: '3'\nsilent: true\n" + block("", "vars", varDef(s("global"), "global", "N"), "G2: '{{.N}}-g2'")
 		root += "includes:\n  inc:\n    taskfile: ./inc\n"
 		if s("incstmt") == "lit" {
 			root += "    vars: {N: incstmt}\n"
 		}
 		root += "tasks:\n"
+		callee := "target"
 		if inc {
-			root += "  entry:\n    cmds:\n      - task: inc:target\n" + callVars
-		} else {
-			root += "  entry:\n    cmds:\n      - task: target\n" + callVars
+			callee = "inc:target"
+		}
+		switch s("via") {
+		case "dep":
+			root += "  entry:\n    deps:\n      - task: " + callee + "\n" + callVars
+		case "defer":
+			cv := ""
+			if s("call") == "lit" {
+				cv = ", vars: {N: call}"
+			}
+			root += "  entry:\n    cmds:\n      - defer: {task: " + callee + cv + "}\n      - 'true'\n"
+		default:
+			root += "  entry:\n    cmds:\n      - task: " + callee + "\n" + callVars
+		}
+		if !inc {
 			root += "  target:\n" + taskVars + "    cmds:\n" + target
 		}
 		incf := "version: '3'\nsilent: true\n" + block("", "vars", varDef(s("incfile"), "incfile", "N")) + "tasks:\n"
@@ -181,6 +194,12 @@ func evalVar(c vCase) *vMismatch {
 	}
 	if err != nil && !strings.HasPrefix(got, "?") {
 		got = "?exit:" + err.Error() + " " + got
+	}
+	if strings.HasSuffix(want, "|?") { // the specification leaves the second probe open
+		want = strings.TrimSuffix(want, "|?")
+		if i := strings.LastIndex(got, "|"); i >= 0 {
+			got = got[:i]
+		}
 	}
 	if got == want {
 		return nil
